@@ -45,9 +45,13 @@ Value& ATAN2Expression::value(Context & ctx) const
     case Type::NO_TYPE:
       break;
     case Type::INTEGER:
+      if (a0.isNull() || a1.isNull())
+        break;
       v = Value(Numeric(std::atan2((double)*a0.integer(), (double)*a1.integer())));
       break;
     case Type::NUMERIC:
+      if (a0.isNull() || a1.isNull())
+        break;
       v = Value(Numeric(std::atan2((double)*a0.integer(), *a1.numeric())));
       break;
     default:
@@ -60,9 +64,13 @@ Value& ATAN2Expression::value(Context & ctx) const
     case Type::NO_TYPE:
       break;
     case Type::INTEGER:
+      if (a0.isNull() || a1.isNull())
+        break;
       v = Value(Numeric(std::atan2(*a0.numeric(), (double)*a1.integer())));
       break;
     case Type::NUMERIC:
+      if (a0.isNull() || a1.isNull())
+        break;
       v = Value(Numeric(std::atan2(*a0.numeric(), *a1.numeric())));
       break;
     default:
